@@ -63,6 +63,9 @@
                                 C14_never_fails_histories_real_isort: the model's insertion sort, root_attrs = [], no hypothesis.
                                 C14_never_fails_real_nonvacuous: a history on RT (two packages q, p), the theorem applied, and the
                                 sort it promises reorders [q; p] into [p; q].
+                                C14_never_fails_real_mismatched_move: a history on RT with a move that C17's side condition
+                                attach_ok excludes (TP-ECUS of a FLEXRAY-TP-CONFIG into a CAN-TP-CONFIG: stored type (8232, 2216),
+                                the destination lists the name with type (8231, 519)); the theorem applies, the sort returns OK.
    [U] C14_findable_mono        a name found by find_sub_element under a 32-bit version mask (what every insertion path checks) is found
                                 under u32::MAX (what sort looks up) unless the wider lookup runs into a table panic
    [F] C14_cmp_cyclic_refuted   the comparison BEFORE fix 4192043 (policy_v0) ordered a2 < a10 < a1b < a2 (tiny tables)
@@ -290,3 +293,12 @@ Theorem C14_never_fails_real_nonvacuous : exists w w',
   e_sort SpecReal.RT HashRealElement.tab_element HashRealAttr.tab_attr HashRealEnum.tab_enum 3516 6311 0 w = Val (OK tt, w') /\
   option_map n_content (w_nodes w' 1) = Some [CElem 4; CElem 2].
 Proof. exact SortProofsReal.never_fails_real_nonvacuous. Qed.
+
+Theorem C14_never_fails_real_mismatched_move : exists w w' n9 n7,
+  Inv.run_ops SpecReal.RT HashRealElement.tab_element HashRealEnum.tab_enum SortProofsReal.nv_check 1048576 []
+    SortProofsReal.nv_hist2 empty_world = Val w /\
+  w_nodes w 9 = Some n9 /\ w_nodes w 7 = Some n7 /\ In (CElem 7) (n_content n9) /\
+  n_type n7 = (8232, 2216) /\
+  SpecOps.find_sub_element SpecReal.RT (n_type n9) (n_name n7) MAXV = Val (Some ((8231, 519), [13])) /\
+  e_sort SpecReal.RT HashRealElement.tab_element HashRealAttr.tab_attr HashRealEnum.tab_enum 3516 6311 0 w = Val (OK tt, w').
+Proof. exact SortProofsReal.never_fails_real_mismatched_move. Qed.
